@@ -205,8 +205,10 @@ def check(pid, tier, seed):
     known_hit = [o for o in failed if o in kf_ids]
 
     discharged = [o for o in obligations if o not in failed]
-    # safety failures are keyed by source text, not by function: count them against obligations too
-    n_obl = len(obligations) + len([o for o in failed if o not in obligations])
+    # safety failures are keyed by source text, not by function: count them against obligations too.
+    # Obligations that are listed known findings are reported separately (KNOWN-FINDING lines, evidence key
+    # known_findings_hit) and are not part of what this run claims to have proved.
+    n_obl = len([o for o in obligations if o not in known_hit]) + len([o for o in failed if o not in obligations and o not in known_hit])
     assumptions = []
     for r in runs:
         assumptions += [f"[{r['unit']}] {a}" for a in scan_assumptions(r["lines"])]
@@ -215,7 +217,8 @@ def check(pid, tier, seed):
     out_lines = []
     for k in kf:
         if k["obligation"] in failed:
-            out_lines.append(f"KNOWN-FINDING: property={pid} {k['obligation']} {k.get('what', '')}")
+            what = " ".join(str(k.get("what", "")).split())
+            out_lines.append(f"KNOWN-FINDING: property={pid} {k['obligation']} {what}")
         else:
             # listed but no longer failing: say so (not an error)
             out_lines.append(f"note: known finding {k['obligation']} did not fail on this tree")
